@@ -88,6 +88,15 @@ _add("srp.rs", "rust", "srp.violation", 1, _SRP_RS)
 _add("printy.py", "python", "improper-logging.print-statement", 2, """def show(x):
     print(x)
 """)
+_add("condverbose.py", "python", "improper-logging.conditional-verbose", 7, """import logging
+logger = logging.getLogger(__name__)
+
+
+def sync(verbose):
+    if verbose:
+        logger.debug("syncing")
+    return 1
+""")
 _add("printy.ts", "typescript", "improper-logging.print-statement", 2, """function show(x: number): void {
   console.log(x);
 }
